@@ -167,6 +167,11 @@ func NewRouterInfo(
 // createPublishedDate converts a time.Time to an I2P Date structure.
 func createPublishedDate(publishedTime time.Time) (*data.Date, error) {
 	millis := publishedTime.UnixMilli()
+	if millis == 0 {
+		// the all-zero Date is the "undefined or null" date: RouterInfo.Validate rejects it
+		log.Error("Published time is the zero date")
+		return nil, oops.Errorf("published date cannot be zero")
+	}
 	dateBytes := make([]byte, data.DATE_SIZE)
 	binary.BigEndian.PutUint64(dateBytes, uint64(millis))
 	publishedDate, _, err := data.ReadDate(dateBytes)
